@@ -29,34 +29,13 @@ pub open spec fn sig_at(d: Seq<u8>, p: int, sig: u32) -> bool { inb(d, p, 4) && 
 
 impl ZipFileData {
 //@use zfd_enclosed_name nobody
+//@use zfd_unix_mode nobody
 }
 //@item src/read.rs | enum CryptoReader
 //@item src/read.rs | enum ZipFileReader
 //@item src/crc32.rs | struct Crc32Reader
 //@item src/read.rs | struct ZipFile
-pub open spec fn decodable(m: CompressionMethod) -> bool { m is Stored || m is Deflated || m is Bzip2 || m is Zstd }
-pub open spec fn cow_val<'a>(c: Cow<'a, ZipFileData>) -> ZipFileData { match c { Cow::Borrowed(b) => *b, Cow::Owned(o) => o } }
-pub open spec fn zf_wf<'a>(z: &ZipFile<'a>) -> bool {
-    (z.reader is NoReader ==> z.crypto_reader is Some && decodable(cow_val(z.data).compression_method))
-}
-#[verifier::external_body]
-pub fn shim_cow_ref<'b, 'a>(c: &'b Cow<'a, ZipFileData>) -> (r: &'b ZipFileData)
-    ensures *r == cow_val(*c)
-{ &**c }
-pub open spec fn unix_mode_of(f: ZipFileData) -> Option<u32> {
-    if f.external_attributes == 0 { None } else {
-        match f.system {
-            System::Unix => Some(f.external_attributes >> 16),
-            System::Dos => {
-                let base = if 0x10 == (f.external_attributes & 0x10) { ffi::S_IFDIR | 0o0775 } else { ffi::S_IFREG | 0o0664 };
-                Some(if 0x01 == (f.external_attributes & 0x01) { base & 0o0555 } else { base })
-            }
-            _ => None,
-        }
-    }
-}
-#[verifier::external_body]
-pub fn shim_string_as_str<'b>(s: &'b String) -> (r: &'b str) ensures r@ == s@ { s.as_str() }
+//@include spec/entry_views.rs
 impl<'a> Dev for ZipFile<'a> {
     open spec fn g_ready(&self) -> bool { zf_wf(self) }
     open spec fn g_dev(&self) -> bool { false }
@@ -73,6 +52,8 @@ impl<'a> ZipFile<'a> {
 //@use zipfile_name nobody
 //@use zipfile_unix_mode nobody
 }
+//@use read_zipfile_from_stream nobody
+//@use central_header_to_zip_file_inner nobody
 pub mod zip_archive {
     use super::*;
 //@item src/read.rs | mod zip_archive | struct Shared
@@ -84,6 +65,56 @@ impl<R: Read + io::Seek> ZipArchive<R> {
 //@use za_len nobody
 //@use za_by_index nobody
 //@use za_extract
+}
+
+// ---- streaming reader
+//@item src/read/stream.rs | struct ZipStreamFileMetadata
+//@item src/read/stream.rs | struct ZipStreamReader
+//@impl src/read/stream.rs | impl ZipStreamFileMetadata
+impl ZipStreamFileMetadata {
+//@use zsfm_enclosed_name
+//@use zsfm_unix_mode
+}
+// T11: the crate's visitor trait; members verbatim (checked against the source by name below)
+//@impl src/read/stream.rs | impl<R: Read> ZipStreamReader<R>
+pub trait ZipStreamVisitor {
+    // ghost (T11): a visitor's own invariant, and -- for a visitor that keeps one (v_logs) -- the log of the
+    // callbacks it has received (false: visit_file, true: visit_additional_metadata)
+    spec fn v_inv(&self) -> bool;
+    spec fn v_logs(&self) -> bool;
+    spec fn v_log(&self) -> Seq<bool>;
+    fn visit_file(&mut self, file: &mut ZipFile<'_>) -> (r: ZipResult<()>)
+        requires old(self).v_inv(), zf_wf(old(file)),
+        ensures final(self).v_inv(), final(self).v_logs() == old(self).v_logs(),
+            final(self).v_logs() ==> final(self).v_log() == old(self).v_log().push(false);
+    fn visit_additional_metadata(&mut self, metadata: &ZipStreamFileMetadata) -> (r: ZipResult<()>)
+        requires old(self).v_inv(),
+        ensures final(self).v_inv(), final(self).v_logs() == old(self).v_logs(),
+            final(self).v_logs() ==> final(self).v_log() == old(self).v_log().push(true);
+}
+// C10: the callbacks a visit delivers are all files first, then at least one metadata record
+pub open spec fn log_extends(before: Seq<bool>, after: Seq<bool>) -> bool {
+    before.len() <= after.len() && forall|i: int| 0 <= i < before.len() ==> #[trigger] after[i] == before[i]
+}
+pub open spec fn files_only_from(s: Seq<bool>, k: int) -> bool { forall|i: int| k <= i < s.len() ==> !#[trigger] s[i] }
+pub open spec fn files_before_metas_from(s: Seq<bool>, k: int) -> bool {
+    forall|i: int, j: int| k <= i <= j < s.len() && #[trigger] s[i] ==> #[trigger] s[j]
+}
+// T15: `struct Extractor` and its visitor impl are items nested in the body of ZipStreamReader::extract; Rust gives
+// nested items no access to the enclosing function's locals, so they are verified at module level (same text).
+//@item src/read/stream.rs | impl<R: Read> ZipStreamReader<R> | fn extract | struct Extractor
+//@impl src/read/stream.rs | impl<R: Read> ZipStreamReader<R>
+impl ZipStreamVisitor for Extractor<'_> {
+    open spec fn v_inv(&self) -> bool { pathx::pview(self.0) == pathx::extraction_root() }
+    open spec fn v_logs(&self) -> bool { false }
+    open spec fn v_log(&self) -> Seq<bool> { Seq::empty() }
+//@use extractor_visit_file
+//@use extractor_visit_additional_metadata
+}
+impl<R: Read> ZipStreamReader<R> {
+//@use zsr_parse_central_directory
+//@use zsr_visit
+//@use zsr_extract
 }
 } // verus!
 fn main() {}
